@@ -124,6 +124,7 @@ pub fn exact_range(src: &ArrDesc) -> Option<u64> {
         ArrDesc::Periodic(_) | ArrDesc::Sporadic(..) | ArrDesc::Extrap(_) | ArrDesc::Never => None,
         // no deterministic process at all: the stream checks are skipped for such sources
         ArrDesc::Poisson(..) => Some(0),
+        ArrDesc::User(..) => None,
         ArrDesc::Curve(v) => Some(*v.last().unwrap_or(&0)),
         ArrDesc::Prefix(h, _) => Some(*h),
         ArrDesc::Jittered(a, j) | ArrDesc::Propagated(a, j) => {
@@ -190,6 +191,16 @@ pub fn random_source(rng: &mut Rng) -> ArrDesc {
     let period = rng.range(2, 40);
     if rng.chance(1, 16) {
         return poisson_source(rng);
+    }
+    if rng.chance(1, 20) {
+        // a user-defined model (default brute-force `steps_iter`, steps that jump by k jobs)
+        let k = rng.range(1, 4);
+        let user = ArrDesc::User(period * k, k);
+        return match rng.below(3) {
+            0 => user,
+            1 => ArrDesc::Jittered(Box::new(user), rng.below(period)),
+            _ => ArrDesc::Vec(vec![user, ArrDesc::Sporadic(period * 2, rng.below(period))]),
+        };
     }
     if rng.chance(1, 40) {
         // a source that never releases anything (alone or as a member)
